@@ -36,7 +36,9 @@ def recsAns (l : List (Option (List UInt8))) : Option (List (List UInt8)) :=
 
 /-- **What the monitor sees of a line of the model**: `Driver/Ds.render` prints the typed output, the part before
 ` | ` is cut into tokens and `Driver/Dsmon.parseAns` reads them into an `Ans`; `Out.ans` is that composition as a
-typed function (`KAT/DsAns.lean` checks `parseAns (tokens of render o) = o.ans` on an output of every shape). -/
+typed function (`Proofs/DsAns.lean` proves `parseAns (l1Toks o) = o.ans` for every `o`, where `render o` is the tokens
+`l1Toks o` joined by spaces and followed by the L2 part; `KAT/DsAns.lean` checks the whole printed line on an output
+of every shape). -/
 def Out.ans : Out → Ans
   | .word w => { head := headOfWord w, ntoks := 1 }
   | .ended live _ =>
